@@ -52,6 +52,7 @@ import (
 	"time"
 
 	"github.com/AdguardTeam/AdGuardHome/internal/aghhttp"
+	"github.com/AdguardTeam/AdGuardHome/internal/aghnet"
 	"github.com/AdguardTeam/AdGuardHome/internal/client"
 	"github.com/AdguardTeam/AdGuardHome/internal/dhcpd"
 	"github.com/AdguardTeam/AdGuardHome/internal/dnsforward"
@@ -92,6 +93,9 @@ type c11LifeWorld struct {
 	work    string
 	conf    string
 	routes  []c11Route
+	out      *vfOut
+	rnd      *vfRand
+	declared []string // every pattern the module declares, plus the probes
 
 	running bool
 	web     *webAPI
@@ -196,13 +200,32 @@ func (lw *c11LifeWorld) boot(db string) (dbOpens bool) {
 		t.Fatal("boot of a running process")
 	}
 	lw.freshConfig()
-	// setupContext
-	globalContext.firstRun = detectFirstRun()
-	globalContext.mux = http.NewServeMux()
-	if !globalContext.firstRun {
-		if err := parseConfig(); err != nil {
-			t.Fatalf("parseConfig of a file written by config.write: %v", err)
+	// setupContext: the REAL function (round 6): it decides firstRun, makes
+	// the mux of the process and parses the configuration file.  On a first
+	// run it calls checkNetworkPermissions, which ends the process when it
+	// may not bind privileged ports: only then (never as root) the three
+	// statements are transcribed, and the class life-setupContext-real is
+	// not hit.
+	realSetup := true
+	if detectFirstRun() {
+		if ok, perr := aghnet.CanBindPrivilegedPorts(); !ok || perr != nil {
+			realSetup = false
 		}
+	}
+	if realSetup {
+		if err := setupContext(options{noEtcHosts: true}); err != nil {
+			t.Fatalf("setupContext: %v", err)
+		}
+		lw.classes["life-setupContext-real"] = true
+	} else {
+		globalContext.firstRun = true
+		globalContext.mux = http.NewServeMux()
+		lw.classes["life-setupContext-transcribed"] = true
+	}
+	// a process starts with an admin mux on which nobody has registered
+	// anything: every path is answered by nobody
+	muxClean := lw.muxBattery("start of the process, after setupContext", true)
+	if !globalContext.firstRun {
 		// run: "Save the updated config."; globalContext.auth is nil here
 		if err := config.write(nil); err != nil {
 			t.Fatalf("start-up config.write: %v", err)
@@ -229,6 +252,34 @@ func (lw *c11LifeWorld) boot(db string) (dbOpens bool) {
 		}
 		return dbOpens
 	}
+	// the registrations of the process.  On a mux that was not empty (the
+	// one of an earlier process of this test binary, or the process-global
+	// default mux) a second registration of "/" panics inside net/http: that
+	// is reported, and this start counts as failed.
+	regPanic := any(nil)
+	func() {
+		defer func() {
+			if !muxClean {
+				regPanic = recover()
+			}
+		}()
+		lw.registerBoot()
+	}()
+	if regPanic != nil {
+		lw.muxFail("c11-mux-not-empty-at-start", "start of the process: registering the routes of the process on the mux that setupContext made panicked: %v: "+
+			"that mux is not a fresh http.NewServeMux()", regPanic)
+		globalContext.auth.Close()
+		globalContext.auth, globalContext.web, lw.web = nil, nil, nil
+		return dbOpens
+	}
+	lw.running, lw.adminMem = true, false
+	lw.muxBattery("start of the process, after the registrations of newWebAPI", false)
+	return dbOpens
+}
+
+// registerBoot: newWebAPI and everything else that is registered at the start
+// of a process, on the mux setupContext made.
+func (lw *c11LifeWorld) registerBoot() {
 	l := slogutil.NewDiscardLogger()
 	lw.web = newWebAPI(context.Background(), &webConfig{
 		logger: l, baseLogger: l, firstRun: globalContext.firstRun, disableUpdate: true,
@@ -252,8 +303,7 @@ func (lw *c11LifeWorld) boot(db string) (dbOpens bool) {
 	globalContext.mux.HandleFunc("/control/install/verif_life_get", preInstall(ensureGET(h)))
 	globalContext.mux.HandleFunc("/control/install/verif_life_post", preInstall(ensurePOST(h)))
 	globalContext.mux.Handle("/install.verif_life", preInstallHandler(http.HandlerFunc(h)))
-	lw.running, lw.adminMem = true, false
-	return dbOpens
+	globalContext.mux.Handle(c11TreeProbe, postInstallHandler(optionalAuthHandler(http.HandlerFunc(h))))
 }
 
 // registerModules: the registrations that initDNS / tlsManager.start make
@@ -629,6 +679,7 @@ func (lw *c11LifeWorld) step(s c11LifeStep) {
 		lw.hist = append(lw.hist, fmt.Sprintf("the wizard's configure call for %q (%s; %s)", s.name, res, how))
 		lw.classes["life-"+res] = true
 		if res == "CfgOk" {
+			lw.muxBattery("the wizard's configure call (registerControlHandlers and the modules' registrations on the mux of the process)", false)
 			mem := memUsers(globalContext.auth)
 			fus, _ := lw.fileUsers()
 			if !c11SameUsers(mem, fus) {
@@ -682,6 +733,7 @@ func c11LifeHistory(out *vfOut, lw *c11LifeWorld, tag string, init []webUser, ha
 	globalContext.workDir, globalContext.confFilePath = lw.work, lw.conf
 	lw.running, lw.web, lw.adminSaved, lw.adminMem, lw.controlRegd = false, nil, false, false, false
 	lw.passwords = map[string]string{}
+	lw.f0 = tag
 	lw.steps, lw.hist, lw.classes = nil, nil, map[string]bool{"life": true, "life-" + tag: true}
 	lw.monOK, lw.monMsg, lw.monKey, lw.monReq, lw.nontriv = true, "", "", false, false
 	globalContext.auth, globalContext.web = nil, nil
@@ -772,7 +824,7 @@ func c11LifeCases(out *vfOut, wd *c11World, rnd *vfRand, routes []c11Route) {
 	}
 	sorted := append([]c11Route{}, routes...)
 	sort.SliceStable(sorted, func(i, j int) bool { return rank(sorted[i]) < rank(sorted[j]) })
-	lw := &c11LifeWorld{t: t, wd: wd, defYAML: buf.Bytes(), routes: sorted}
+	lw := &c11LifeWorld{t: t, wd: wd, defYAML: buf.Bytes(), routes: sorted, out: out, rnd: rnd.Fork(11), declared: c11DeclaredPatterns(routes)}
 
 	S := func(ops ...string) []c11LifeStep {
 		st := make([]c11LifeStep, len(ops))
